@@ -4,7 +4,7 @@ from __future__ import annotations
 
 from .. import smallworld, gen, probe, spec
 from ..probe import violation
-from .common import change_delimiter_mid_life, scale_leg, call, grow_while_asking
+from .common import growth_sweep, long_lived, change_delimiter_mid_life, scale_leg, call, grow_while_asking
 
 PROP = "C02"
 LEVEL = "exploration"
@@ -57,6 +57,8 @@ def run_case(ctx, g, rng):
                     call(c_.expand_reference, api.ReferenceTuple(p_, x_))
         probe.note_key(f"curie-small-world:chunk{g % 40}", True)
     scale_leg(ctx, rng, rng.choice([":", ":", "/", "::"]), modes=False, g=g)
+    growth_sweep(ctx, rng, rng.choice([":", ":", "/"]), g)
+    long_lived(ctx, rng, rng.choice([":", "/"]), g)
     S = probe.S
     if g % 6 == 5:
         d = ":"
